@@ -350,3 +350,12 @@ CLAIMS["C14"]["level"] += " A collected token list is passed on on every complet
 CLAIMS["C15"]["level"] += " Library modules call no setter of process-wide interpreter state (recursion limit, cwd, environment, locale, warning filters, hooks)."
 CLAIMS["C17"]["level"] += " Text leaves (str fields) are written verbatim, and text returned by a child's format()/format_decl()/tokfmt is only concatenated, never edited."
 CLAIMS["C19"]["level"] += " The main-file name handed to a filter never derives from the preprocessor's output; the gcc filter compares with the name escaped as gcc writes it on every path."
+# round 9
+CLAIMS["C01"]["level"] += " Every specifier token the type parser's loop consumes leaves a trace; the #include operand is cut off once, at the first blank (shared with C09)."
+CLAIMS["C03"]["level"] += " A constructor's initializer list ends at the body (C13's R13.6 under this id)."
+CLAIMS["C06"]["level"] += " Every specifier token the type parser consumes is recorded, so that validate() can reject it (shared with C01)."
+CLAIMS["C09"]["level"] += " The #include operand is cut off once, at the first blank."
+CLAIMS["C10"]["level"] += " The handler's message names the file and the line of the token the error is about (C06's message rule under this id); nothing is carried on the parser from one declaration to the next (C12's ownership rule under this id: a parked location would be reported for a later declaration)."
+CLAIMS["C12"]["level"] += " The trailing-doc lookup order (C11's R11.6) is evaluated under this id as well."
+CLAIMS["C14"]["level"] += " The raw value of a template argument is created from its own token list before the trial parse touches it (C02's region rule under this id)."
+CLAIMS["C16"]["level"] += " tokfmt is interpreted as a whole function on concrete class sequences (any number of loops, early returns, for-else); text returned by tokfmt / format() is only concatenated by its callers in types.py, never edited (shared with C17)."
